@@ -29,5 +29,9 @@ def level_assumptions(prop):
     return []
 
 
-def run_groups(prop, groups, tier, log):
+def all_props():
+    return set().union(*[set(g["props"]) for g in _groups()]) if _groups() else set()
+
+
+def run_groups(prop, groups, tier, log, cache=None):
     return []
